@@ -40,6 +40,12 @@ type Write struct {
 	Node format.Node
 }
 
+// Removal is one entry of the removal log: the block was deleted when After writes had been done.
+type Removal struct {
+	Cid   cid.Cid
+	After int
+}
+
 // GateFunc is called by Get (outside the store mutex) before the answer is
 // produced. It may block; it must return when ctx is done.
 type GateFunc func(ctx context.Context, c cid.Cid, seq int)
@@ -48,6 +54,7 @@ type Dag struct {
 	mu      sync.Mutex
 	blocks  map[cid.Cid]format.Node
 	writes  []Write
+	removes []Removal
 	gets    []cid.Cid
 	faults  map[cid.Cid]FaultKind
 	replace map[cid.Cid][]byte
@@ -75,6 +82,7 @@ func (a *API) Pin() coreiface.PinAPI        { return pinAPI{} }
 type pinAPI struct{ coreiface.PinAPI }
 
 func (pinAPI) Add(context.Context, path.Path, ...options.PinAddOption) error { return nil }
+func (pinAPI) Rm(context.Context, path.Path, ...options.PinRmOption) error   { return nil }
 
 // ---- format.DAGService ----
 
@@ -163,6 +171,9 @@ func (d *Dag) GetMany(ctx context.Context, cs []cid.Cid) <-chan *format.NodeOpti
 func (d *Dag) Remove(ctx context.Context, c cid.Cid) error {
 	d.mu.Lock()
 	defer d.mu.Unlock()
+	if _, ok := d.blocks[c]; ok {
+		d.removes = append(d.removes, Removal{Cid: c, After: len(d.writes)})
+	}
 	delete(d.blocks, c)
 	return nil
 }
@@ -229,6 +240,15 @@ func (d *Dag) Writes() []Write {
 	return out
 }
 
+// Removals returns a copy of the removal log.
+func (d *Dag) Removals() []Removal {
+	d.mu.Lock()
+	defer d.mu.Unlock()
+	out := make([]Removal, len(d.removes))
+	copy(out, d.removes)
+	return out
+}
+
 func (d *Dag) NumWrites() int {
 	d.mu.Lock()
 	defer d.mu.Unlock()
@@ -271,15 +291,25 @@ func (d *Dag) Put(n format.Node) {
 	d.blocks[n.Cid()] = n
 }
 
-// Prefix returns a fresh API holding exactly the first n writes of this store
-// (the state a crash right after the n-th write would leave behind).
+// Prefix returns a fresh API holding what the first n writes of this store left behind (the state a
+// crash right after the n-th write would leave): the writes, minus the blocks deleted before the
+// n-th write - and, when n covers the whole write log, minus every deleted block (the current state).
 func (d *Dag) Prefix(n int) *API {
 	d.mu.Lock()
 	defer d.mu.Unlock()
 	a := New()
+	ri := 0
 	for i := 0; i < n && i < len(d.writes); i++ {
+		for ; ri < len(d.removes) && d.removes[ri].After <= i; ri++ {
+			delete(a.D.blocks, d.removes[ri].Cid)
+		}
 		a.D.blocks[d.writes[i].Cid] = d.writes[i].Node
 		a.D.writes = append(a.D.writes, d.writes[i])
+	}
+	if n >= len(d.writes) {
+		for ; ri < len(d.removes); ri++ {
+			delete(a.D.blocks, d.removes[ri].Cid)
+		}
 	}
 	return a
 }
